@@ -1,14 +1,20 @@
 CONSTANTS Keys = {"a", "b"}
           NHol = 2
           NWk = 1
+          NLo = 1
+          NHi = 1
+          ConAdjs = {"p"}
           Rich = FALSE
           MaxObj = 3
           Depth = 0
           KeepHist = FALSE
+          Fan = 0
 INIT Init
 NEXT Next
 INVARIANT WellFormed
 INVARIANT FetchReflectsLast
+INVARIANT FetchReflectsConfig
+INVARIANT WellConfigured
 INVARIANT TableFresh
 INVARIANT PathsAgree
 PROPERTY OneKeyPerStep
